@@ -86,8 +86,7 @@ Hierarchy == (NonEmpty /\ InRegime) => \A IA \in Alphas : \A top \in Tops :
            /\ \A g \in SvcCand(st, n) : (g \in T[n]) <=> ~(\E h \in Above(n) : g \subseteq h)
            \* the correction counts exactly the tests performed at this order
            /\ V[n] \subseteq T[n]
-           /\ SvcIndexOf(st, T[n], n, IA) <= Cardinality(T[n])
-           /\ Cardinality(V[n]) = SvcIndexOf(st, T[n], n, IA)
+           /\ LET istar == SvcIndexOf(st, T[n], n, IA) IN istar <= Cardinality(T[n]) /\ Cardinality(V[n]) = istar
            /\ \A x \in V[n], y \in T[n] \ V[n] : SvcPNum(st, y) >= SvcPNum(st, x)     \* lower set (one denominator per order)
            /\ (T[n] = {} => V[n] = {})
       \* validated cores are never nested
@@ -96,8 +95,9 @@ Hierarchy == (NonEmpty /\ InRegime) => \A IA \in Alphas : \A top \in Tops :
       /\ \A k \in Keys(st) : KSize(k) <= top => (k.s \in T[KSize(k)] \/ \E h \in Above(KSize(k)) : k.s \subseteq h)
 \* X05-h: one row per tested group of the orders min_order..top; min_order only cuts, and a max_order at or
 \* above the largest hyperedge size is the same as none
-RowsShape == (NonEmpty /\ InRegime) => \A IA \in Alphas : \A mx \in {m \in {0, 2} \cap MXs : SvcTop(st, m) <= MaxO} : \A mn \in {1, 2} \cap Ns :
-   LET top == SvcTop(st, mx)
+RowsShape == (NonEmpty /\ InRegime) => \A IA \in Alphas : \A a \in {x \in {<<1, 0>>, <<2, 2>>} : x[2] \in MXs /\ x[1] \in Ns /\ SvcTop(st, x[2]) <= MaxO} :
+   LET mn == a[1]  mx == a[2]
+       top == SvcTop(st, mx)
        tb == TLCEval(SvcTable(st, top, IA))
        rows == TLCEval(SvcRows(st, mn, mx, IA))
        F(n) == Cardinality(tb[n].t)
@@ -108,10 +108,11 @@ RowsShape == (NonEmpty /\ InRegime) => \A IA \in Alphas : \A mx \in {m \in {0, 2
       /\ \A r \in rows : r.w = SvcW(st, r.group) /\ 1 <= r.pvalue[1] /\ r.pvalue[1] <= r.pvalue[2]
       /\ \A m2 \in MXs : m2 >= MaxSize(st) => SvcTop(st, m2) = SvcTop(st, 0)
 \* a smaller alpha validates fewer groups among THE SAME tests (in particular at the largest order)
-AlphaShrinks == (NonEmpty /\ InRegime) => \A IA1, IA2 \in Alphas : IA1 <= IA2 => \A top \in Tops :
-   LET t1 == TLCEval(SvcTable(st, top, IA1))  t2 == TLCEval(SvcTable(st, top, IA2)) IN
-   /\ t2[top].t = t1[top].t /\ t2[top].v \subseteq t1[top].v
-   /\ \A n \in 1..top : SvcValidatedOf(st, t1[n].t, n, IA2) \subseteq t1[n].v
+AlphaShrinks == (NonEmpty /\ InRegime) => \A top \in Tops :
+   LET tbs == TLCEval([IA \in Alphas |-> SvcTable(st, top, IA)]) IN
+   \A IA1, IA2 \in Alphas : IA1 < IA2 =>
+      /\ tbs[IA2][top].t = tbs[IA1][top].t /\ tbs[IA2][top].v \subseteq tbs[IA1][top].v
+      /\ \A n \in 1..top : SvcValidatedOf(st, tbs[IA1][n].t, n, IA2) \subseteq tbs[IA1][n].v
 \* NOT claimed: that the set of ALL validated groups shrinks with alpha - a core that is no longer validated
 \* releases its sub-groups, which are then tested.  (It holds on every instance explored here; kept as a probe.)
 AllValidated(IA, top) == LET tb == TLCEval(SvcTable(st, top, IA)) IN UNION {tb[n].v : n \in 1..top}
